@@ -121,7 +121,10 @@ PROPS["C14"] = dict(
         rapid("Tree", "TestTree", 120000, 4000000),
         enum("TreeEnum", "TestTreeEnum"),
         rapid("Docs", "TestDocs", 6000, 200000),
-        rapid("Frames", "TestFrames", 800, 40000, shards=(8, 16), config_toml=_NET, timeout=dict(quick=600, thorough=3000)),
+        # what a frame contains is counted, not timed: a malformed or leaking frame is reported even when the schedule that
+        # produced it (items built concurrently) does not recur in the confirmation replay
+        rapid("Frames", "TestFrames", 800, 40000, shards=(8, 16), config_toml=_NET, timeout=dict(quick=600, thorough=3000),
+              retry_confirm=4, trust_unconfirmed=r"not well-formed terminal text|still active at"),
     ],
     manifest=dict(
         text=("Property-based testing against an SGR terminal-state emulator: generated style-function expression trees are compared "
@@ -250,7 +253,8 @@ PROPS["C01"] = dict(
         rapid("Items", "TestItems", 12000, 200000),
         rapid("Render", "TestRender", 20000, 400000),
         rapid("Net", "TestNet", 4000, 160000, config_toml=_NET),
-        rapid("Frames", "TestFrames", 800, 40000, shards=(8, 16), config_toml=_NET, timeout=dict(quick=600, thorough=3000)),
+        rapid("Frames", "TestFrames", 800, 40000, shards=(8, 16), config_toml=_NET, timeout=dict(quick=600, thorough=3000),
+              retry_confirm=4, trust_unconfirmed=r"is not terminal-clean"),
         fuzz("Fuzz", "FuzzRender", "180s"),
     ],
     manifest=dict(
